@@ -32,7 +32,7 @@ ASSUMPTIONS = [
     "precondition of IDENTIFY respected by construction: C non-empty, C subset of T, G[C] has a single district, topo is a topological order of G",
 ]
 BUDGET = {
-    "quick": dict(examples=100, shards=16, seconds=200),
+    "quick": dict(examples=300, shards=16, seconds=240),
     "thorough": dict(examples=1500, shards=16, seconds=2400),
 }
 ESSENTIAL_LABELS = {t: ["answered-proper-subset", "fail", "lemma4", "lemma1", "lemma4-all-districts", "atomic-conditioned-proper-subset"] for t in ("quick", "thorough")}
@@ -62,7 +62,7 @@ def strategy(tier):
 
 def derive(case):
     """(T, C, topo) derived deterministically from the drawn integer ``pick`` (or given explicitly)."""
-    g = case["g"]
+    g = case.get("_history_of") or case["g"]  # first run of a query-edit-query history: the question of the second run
     if "T" in case:
         return case["T"], case["C"], case["topo"]
     rng = SplitMix(case["pick"])
